@@ -33,7 +33,7 @@ fn monitors(id: &str) -> Monitors {
 }
 
 fn alt_cfg() -> WorldCfg {
-    WorldCfg { tree_ext: false, single_welcome: false, path_required: true, encrypt_handshake: true, ..Default::default() }
+    WorldCfg { tree_ext: false, single_welcome: false, path_required: true, encrypt_handshake: true, padding: 1, ..Default::default() }
 }
 
 /// The list of (model, label) explored for a property and tier.
@@ -90,6 +90,7 @@ pub fn models(id: &str, tier: &str) -> Vec<HistoryModel> {
                 single_welcome: bits & 2 != 0,
                 path_required: bits & 4 != 0,
                 encrypt_handshake: bits & 8 != 0,
+                padding: bits % 3,
                 ..Default::default()
             });
         }
